@@ -801,6 +801,8 @@ func (m *Model) Apply(o *Op, h *Hints, wall int64) Resp {
 			return Resp{Ambiguous: "invalid filter node not reached by lazy evaluation"}
 		}
 		return res
+	case "Advance":
+		return Resp{Code: "OK"}
 	case "GC":
 		return Resp{Code: "OK"} // handled by GCPass (needs the wall clock policy); see check C16
 	}
